@@ -331,6 +331,26 @@ produces, given the callback invocations -/
 def responses (fired : List Fired) : List Bool :=
   (fired.foldl (fun l f => l.sendResponse f.arg) Leaf.init).sent
 
+/-! ### the plan node between an operator and its stage (query/stage/plan_node.go)
+
+`baseStage.execute` calls `planNode.ExecuteWithStats`, which runs the operator and attaches
+statistics — for operators that implement `Stats()` (seriesFiltering, metricAllSeries, dataLoad) the
+operator's own ones too. What the stage sees (`Stage.out`) is what the plan node hands on. -/
+
+/-- what an operator does -/
+inductive OpResult where
+  | ok | error | panic
+  deriving DecidableEq, Repr
+
+/-- `planNode.ExecuteWithStats`; `returnsOperatorError` is the regenerated fact "every return site
+after the operator ran returns the operator's own error" (`true` = the source as it is); the only
+other shape seen so far drops the error of a trackable operator -/
+def planNodeExec (returnsOperatorError trackable : Bool) (r : OpResult) : OpResult :=
+  match r with
+  | .panic => .panic            -- nothing between the operator and the stage recovers
+  | .ok => .ok
+  | .error => if !returnsOperatorError && trackable then .ok else .error
+
 /-! ### one task request on the leaf node (query/task_handler.go, query/leaf_processor.go)
 
 `TaskHandler.process` hands the request to its task pool; the task calls
@@ -447,6 +467,12 @@ def baseStageExecuteOrder : List String :=
    "then:λ1:execFn()", "else:execFn()"]
 
 def baseStageIsAsyncOrder : List String := ["return stage.execPool != nil && stage.ctx != nil"]
+
+/-- `planNode.ExecuteWithStats`: the named result `err` is assigned from `p.op.Execute()` only and
+returned by the bare `return`; the stats are attached in a deferred closure -/
+def planNodeExecuteWithStatsOrder : List String :=
+  ["if p.op == nil", "then:return nil, nil", "defer:λ1:then:track.Stats()",
+   "defer:λ1:then:stats.Stats = track.Stats()", "p.op.Execute()", "return"]
 
 /-- `workerPool.execTask`: recover → `task.panicHandle(err)` -/
 def execTaskOrder : List String :=
